@@ -133,6 +133,8 @@ def compare_obs(mo, io, tol=1e-9, keys=None, traj_tol=1e-7):
     """Differences between one model observation and one implementation observation."""
     diffs = []
     merr, ierr = "error" in mo, "error" in io
+    if "oracle" in mo:
+        return []
     if mo.get("error") == "divzero":
         # outside the domain of every property (a category population or a user divisor is 0):
         # the implementation yields nan/inf there; not compared
